@@ -39,6 +39,7 @@ structure Chain where
   store : List (Nat × Stored)         -- block store (invalid-flagged blocks are dropped)
   undoFiles : List (Nat × List Rec)   -- undo/<height>  (keyed by height only, as the code)
   lastHeight : Nat                    -- Unspent.LastBlockHeight
+  vcBad : Nat := 0                    -- GHOST (no counterpart in the code): connected blocks whose changes fail `validChangesB`
 deriving Repr, Inhabited
 
 -- ------------------------------------------------------------------------------------------ work
@@ -152,7 +153,8 @@ def deleteBranch (c : Chain) (id : Nat) : Chain :=
 -- ------------------------------------------------------------------------------------------ utxo + undo files
 
 /-- `Unspent.CommitBlockTxs(changes, hash)`; `withUndo` = `changes.UndoData != nil` -/
-def commitBlockTxs (c : Chain) (height : Nat) (withUndo : Bool) (ch : Changes) : Chain :=
+def commitBlockTxs (c : Chain) (height : Nat) (withUndo : Bool) (txids : List Nat) (ch : Changes) : Chain :=
+  let c := if validChangesB c.utxo txids ch then c else { c with vcBad := c.vcBad + 1 }
   let files := if withUndo then aset height ch.undo c.undoFiles else c.undoFiles
   let files := if height > UnwindBufLen then files.filter (fun p => p.1 != height - UnwindBufLen) else files
   { c with utxo := commit c.utxo ch, undoFiles := files, lastHeight := height }
@@ -190,7 +192,8 @@ def commonAnc (c : Chain) : Nat → Node → Node → Except String (Option Node
   | f + 1, tmp, cur =>
     if tmp.id == cur.id then pure (some cur) else do
       let cp ← node! c cur.parent
-      if cp.txCount == 0 then pure none else do
+      -- `if cur.Parent != tmp.Parent && cur.Parent.TxCount == 0` (the common block itself needs no data)
+      if cur.parent != tmp.parent && cp.txCount == 0 then pure none else do
         let tp ← node! c tmp.parent
         commonAnc c f tp cp
 
@@ -214,7 +217,7 @@ def parseTill : Nat → Chain → Nat → Except String Chain
           | .error _ => afterFail f (deleteBranch c nx)
           | .ok ch =>
             let c1 := { c with store := aset nx { blk with trusted := true } c.store }
-            let c2 := commitBlockTxs c1 nxt.height (nxt.height + UnwindBufLen ≥ en.height) ch
+            let c2 := commitBlockTxs c1 nxt.height (nxt.height + UnwindBufLen ≥ en.height) (blk.txs.map (·.txid)) ch
             parseTill f { c2 with tip := nx } e
 /-- the tail of ParseTillBlock when `last != end`: FindFarthestNode from the root, MoveToBlock there -/
 def afterFail : Nat → Chain → Except String Chain
@@ -272,7 +275,7 @@ def commitBlock (c : Chain) (b : Block) (height : Nat) : Chain × Outcome :=
       ({ c1 with nodes := c1.nodes.filter (fun n => n.id != b.id) }, .rejected e)
     | .ok ch =>
       let c1 := { c with store := aset b.id { txs := b.txs, trusted := true } c.store }
-      let c2 := commitBlockTxs c1 height true ch        -- LastKnownHeight = 0 in the harness
+      let c2 := commitBlockTxs c1 height true (b.txs.map (·.txid)) ch        -- LastKnownHeight = 0 in the harness
       ({ c2 with tip := b.id }, .ok)
   else
     let c1 := if (alookup b.id c.store).isSome then c else { c with store := aset b.id { txs := b.txs, trusted := false } c.store }
